@@ -34,8 +34,12 @@ Ltac special x := (apply identc_not; [assumption | vm_compute; reflexivity]).
 
 (** ---------------------------------------------------------------- images of a piece in each layer *)
 
+(** what scanStringLiteralToken writes for one ordinary byte of a quoted body *)
+Definition esc_str (c : ascii) : bytes := if Ascii.eqb c LF then [BS; "n"] else [c].
+
 Definition lit1 (f : form) (p : piece) : bytes :=
-  if is_raw f then flat_map esc_raw (spell1 p) else spell1 p.
+  if is_raw f then flat_map esc_raw (spell1 p)
+  else match p with PChar c => esc_str c | _ => spell1 p end.
 
 Definition fmt1 (f : form) (p : piece) : bytes :=
   match p with
@@ -59,22 +63,30 @@ Definition holes (ps : list piece) : list bytes :=
 Definition uq_app (v : bytes) (r : uq) : uq :=
   match r with UqOk w => UqOk (v ++ w) | x => x end.
 
-Lemma lit1_nonraw : forall f p, is_raw f = false -> lit1 f p = spell1 p.
-Proof. intros f p H. unfold lit1. rewrite H. reflexivity. Qed.
+Lemma lit1_nonraw_esc : forall f c, is_raw f = false -> lit1 f (PEsc c) = spell1 (PEsc c).
+Proof. intros f c H. unfold lit1. rewrite H. reflexivity. Qed.
 
 (** ---------------------------------------------------------------- layer 1 *)
 
 Lemma scan_string_plain : forall x s,
   forallb (fun c => negb (Ascii.eqb c DQ) && negb (Ascii.eqb c BS)) x = true ->
   scan_string (x ++ s) =
-  match scan_string s with Some (v, r) => Some (x ++ v, r) | None => None end.
+  match scan_string s with Some (v, r) => Some (flat_map esc_str x ++ v, r) | None => None end.
 Proof.
   induction x as [|c x IH]; intros s H; simpl.
   - destruct (scan_string s) as [[v r]|]; reflexivity.
   - simpl in H. apply andb_prop in H. destruct H as [Hc Hx].
     apply andb_prop in Hc. destruct Hc as [H1 H2].
     apply negb_true_iff in H1. apply negb_true_iff in H2. rewrite H1, H2.
-    rewrite (IH s Hx). destruct (scan_string s) as [[v r]|]; reflexivity.
+    rewrite (IH s Hx). unfold esc_str.
+    destruct (Ascii.eqb c LF); destruct (scan_string s) as [[v r]|]; reflexivity.
+Qed.
+
+Lemma esc_str_ident : forall n, forallb identc n = true -> flat_map esc_str n = n.
+Proof.
+  induction n as [|c n IH]; intros H; simpl in *; [reflexivity|].
+  apply andb_prop in H. destruct H as [H1 H2]. rewrite (IH H2). unfold esc_str.
+  assert (Ascii.eqb c LF = false) as -> by special c. reflexivity.
 Qed.
 
 Lemma scan_string_pair : forall c s,
@@ -119,29 +131,31 @@ Proof. intros. rewrite forallb_app. rewrite H, H0. reflexivity. Qed.
 Lemma scan_string_spell : forall f e ps rest,
   is_raw f = false ->
   forallb (ok_piece f e) ps = true ->
-  scan_string (spell ps ++ DQ :: rest) = Some (spell ps, rest).
+  scan_string (spell ps ++ DQ :: rest) = Some (flat_map (lit1 f) ps, rest).
 Proof.
   intros f e ps rest Hf. induction ps as [|p ps IH]; intros H.
   - simpl. reflexivity.
   - simpl in H. apply andb_prop in H. destruct H as [Hp Hps].
-    specialize (IH Hps). unfold spell in *. simpl. rewrite <- app_assoc.
-    destruct p as [c|c|c|n]; simpl.
+    specialize (IH Hps). unfold spell in *. simpl flat_map. rewrite <- app_assoc.
+    unfold lit1 at 1. rewrite Hf.
+    destruct p as [c|c|c|n]; cbn [spell1].
     + (* PChar *)
       assert (Ascii.eqb c DQ = false /\ Ascii.eqb c BS = false) as [H1 H2].
       { unfold ok_piece, ok_char in Hp. destruct f; try discriminate; simpl in Hp;
         apply andb_prop in Hp; destruct Hp as [_ Hp]; apply negb_true_iff in Hp;
         repeat (apply orb_false_iff in Hp; destruct Hp as [Hp ?]); auto. }
-      rewrite H1, H2, IH. reflexivity.
-    + rewrite IH. reflexivity.
-    + rewrite IH. reflexivity.
+      rewrite (scan_string_plain [c]) by (simpl; rewrite H1, H2; reflexivity).
+      rewrite IH. simpl. rewrite app_nil_r. reflexivity.
+    + simpl. rewrite IH. reflexivity.
+    + simpl. rewrite IH. reflexivity.
     + (* PHole *)
       assert (forallb identc n = true) as Hn.
       { unfold ok_piece in Hp. apply andb_prop in Hp. destruct Hp as [Hp _].
         apply andb_prop in Hp. destruct Hp as [_ Hp]. apply valid_ident_chars. exact Hp. }
-      change (scan_string (LBR :: (n ++ [RBR]) ++ flat_map spell1 ps ++ DQ :: rest))
+      change (scan_string ((LBR :: n ++ [RBR]) ++ flat_map spell1 ps ++ DQ :: rest))
         with (scan_string (([LBR] ++ n ++ [RBR]) ++ flat_map spell1 ps ++ DQ :: rest)).
       rewrite scan_string_plain.
-      * rewrite IH. simpl. rewrite <- app_assoc. reflexivity.
+      * rewrite IH. rewrite !flat_map_app, (esc_str_ident n Hn). reflexivity.
       * simpl. rewrite forallb_app, (ident_plain n Hn). reflexivity.
 Qed.
 
@@ -178,7 +192,7 @@ Proof.
   intros f e ps rest H. unfold scan, close, lit1. destruct (is_raw f) eqn:Hf.
   - rewrite scan_raw_body by (eapply spell_no_bq; eauto).
     unfold spell. rewrite flat_map_flat_map. reflexivity.
-  - rewrite (scan_string_spell f e ps rest Hf H). reflexivity.
+  - rewrite (scan_string_spell f e ps rest Hf H). unfold lit1. rewrite Hf. reflexivity.
 Qed.
 
 (** ---------------------------------------------------------------- layer 2: ParseSInterP *)
@@ -221,8 +235,10 @@ Proof.
     destruct f; try discriminate; apply negb_true_iff in Hp.
     + (* IStr *)
       repeat (apply orb_false_iff in Hp; destruct Hp as [Hp ?]).
-      unfold lit1, fmt1, lit1. simpl.
-      rw_eqb. destruct (Ascii.eqb c PCT) eqn:Ep; rewrite Hs; reflexivity.
+      unfold fmt1, lit1. simpl is_raw. cbv iota. unfold esc_str.
+      destruct (Ascii.eqb c LF) eqn:E3.
+      { apply Ascii.eqb_eq in E3. subst c. simpl. rewrite Hs. reflexivity. }
+      simpl. rw_eqb. destruct (Ascii.eqb c PCT) eqn:Ep; rewrite Hs; reflexivity.
     + (* IRaw *)
       apply orb_false_iff in Hp. destruct Hp as [Hbq Hlb].
       unfold fmt1, lit1. simpl. rewrite app_nil_r. unfold esc_raw.
@@ -287,6 +303,15 @@ Proof.
 Qed.
 
 (** the Go literal written for an ordinary character of a form unquotes to that character *)
+Lemma unq_esc_str : forall c s,
+  Ascii.eqb c BS = false -> Ascii.eqb c DQ = false -> Ascii.eqb c NUL = false ->
+  go_unquote (esc_str c ++ s) = uq_cons c (go_unquote s).
+Proof.
+  intros c s H1 H2 H4. unfold esc_str.
+  destruct (Ascii.eqb c LF) eqn:E3; [apply Ascii.eqb_eq in E3; subst c; reflexivity|].
+  apply unq_plain; assumption.
+Qed.
+
 Lemma unq_char : forall f c s,
   ok_char f c = true ->
   go_unquote (lit1 f (PChar c) ++ s) = uq_cons c (go_unquote s).
@@ -295,13 +320,13 @@ Proof.
   apply negb_true_iff in Hnul.
   unfold lit1. destruct f; simpl; apply negb_true_iff in H;
     repeat (apply orb_false_iff in H; destruct H as [H ?]).
-  - apply unq_plain; assumption.
+  - apply unq_esc_str; assumption.
   - rewrite app_nil_r. unfold esc_raw.
     destruct (Ascii.eqb c BS) eqn:E1; [apply Ascii.eqb_eq in E1; subst c; reflexivity|].
     destruct (Ascii.eqb c DQ) eqn:E2; [apply Ascii.eqb_eq in E2; subst c; reflexivity|].
     destruct (Ascii.eqb c LF) eqn:E3; [apply Ascii.eqb_eq in E3; subst c; reflexivity|].
     apply unq_plain; assumption.
-  - apply unq_plain; assumption.
+  - apply unq_esc_str; assumption.
   - rewrite app_nil_r. unfold esc_raw.
     destruct (Ascii.eqb c BS) eqn:E1; [apply Ascii.eqb_eq in E1; subst c; reflexivity|].
     destruct (Ascii.eqb c DQ) eqn:E2; [apply Ascii.eqb_eq in E2; subst c; reflexivity|].
@@ -319,7 +344,7 @@ Proof.
   unfold meaning in *. simpl. destruct p as [c|c|c|n].
   - simpl in Hp. rewrite unq_char by exact Hp. rewrite IH. reflexivity.
   - unfold ok_piece in Hp. apply andb_prop in Hp. destruct Hp as [Hr He].
-    apply negb_true_iff in Hr. rewrite (lit1_nonraw f (PEsc c) Hr). cbn [spell1 app].
+    apply negb_true_iff in Hr. rewrite (lit1_nonraw_esc f c Hr). cbn [spell1 app].
     rewrite unq_esc by exact He. rewrite IH. reflexivity.
   - unfold ok_piece in Hp. destruct f; discriminate.
   - unfold ok_piece in Hp. rewrite Hi in Hp. discriminate.
@@ -512,35 +537,63 @@ Proof.
   intros f e ps H. unfold denote. rewrite (lex_complete f e ps H), H. reflexivity.
 Qed.
 
-(** ---------------------------------------------------------------- the class the model falsifies *)
+(** ---------------------------------------------------------------- raw newlines in quoted literals *)
 
-(** A raw newline inside "..." (the property text counts it among "every other character", which
-    must be preserved): the tokenizer keeps it verbatim and the emitted Go does not compile. *)
-Theorem newline_in_quoted_refuted : forall f rest,
+(** Since the repair of scanStringLiteralToken a raw newline inside "..." / $"..." is an ordinary
+    character: it is covered by [literal_roundtrip]; for instance: *)
+Theorem newline_in_quoted_preserved : forall f rest,
   f = Str \/ f = IStr ->
-  pipeline f [] (["a"; LF; "b"] ++ close f :: rest) = (CompileError, rest).
+  pipeline f [] (["a"; LF; "b"] ++ close f :: rest) = (Ok ["a"; LF; "b"], rest).
+Proof.
+  intros f rest H.
+  apply (literal_roundtrip_pieces f [] [PChar "a"; PChar LF; PChar "b"] rest).
+  destruct H; subst f; reflexivity.
+Qed.
+
+(** Documentation of the defect that was repaired: with the scanner as it was ([scan_string_old],
+    [pipeline_old]) the tokenizer kept the newline verbatim and the emitted Go did not compile, although
+    the property counts a newline among "every other character". *)
+Theorem newline_in_quoted_old_refuted : forall f rest,
+  f = Str \/ f = IStr ->
+  pipeline_old f [] (["a"; LF; "b"] ++ close f :: rest) = (CompileError, rest).
 Proof. intros f rest [H|H]; subst f; reflexivity. Qed.
 
-(** in "..." this holds for every body that has a raw newline after ordinary characters *)
-Theorem newline_in_string_never_compiles : forall x y rest,
-  forallb (ok_char Str) x = true ->
-  scan_string (y ++ DQ :: rest) = Some (y, rest) ->
-  pipeline Str [] (x ++ LF :: y ++ DQ :: rest) = (CompileError, rest).
+Lemma scan_string_old_plain : forall x s,
+  forallb (fun c => negb (Ascii.eqb c DQ) && negb (Ascii.eqb c BS)) x = true ->
+  scan_string_old (x ++ s) =
+  match scan_string_old s with Some (v, r) => Some (x ++ v, r) | None => None end.
 Proof.
-  intros x y rest Hx Hy. unfold pipeline, scan. simpl is_raw. cbv iota.
+  induction x as [|c x IH]; intros s H; simpl.
+  - destruct (scan_string_old s) as [[v r]|]; reflexivity.
+  - simpl in H. apply andb_prop in H. destruct H as [Hc Hx].
+    apply andb_prop in Hc. destruct Hc as [H1 H2].
+    apply negb_true_iff in H1. apply negb_true_iff in H2. rewrite H1, H2.
+    rewrite (IH s Hx). destruct (scan_string_old s) as [[v r]|]; reflexivity.
+Qed.
+
+(** with the old scanner, in "..." this held for every body with a raw newline after ordinary
+    characters *)
+Theorem newline_in_string_old_never_compiles : forall x y rest,
+  forallb (fun c => ok_char Str c && negb (Ascii.eqb c LF)) x = true ->
+  scan_string_old (y ++ DQ :: rest) = Some (y, rest) ->
+  pipeline_old Str [] (x ++ LF :: y ++ DQ :: rest) = (CompileError, rest).
+Proof.
+  intros x y rest Hx Hy. unfold pipeline_old. simpl is_raw. cbv iota.
   assert (forallb (fun c => negb (Ascii.eqb c DQ) && negb (Ascii.eqb c BS)) x = true) as Hp.
   { clear Hy. induction x as [|c x IH]; [reflexivity|]. simpl in *.
     apply andb_prop in Hx. destruct Hx as [Hc Hx]. rewrite (IH Hx), andb_true_r.
+    apply andb_prop in Hc. destruct Hc as [Hc _].
     unfold ok_char in Hc. apply andb_prop in Hc. destruct Hc as [_ Hc].
     apply negb_true_iff in Hc. repeat (apply orb_false_iff in Hc; destruct Hc as [Hc ?]).
     rw_eqb. reflexivity. }
-  rewrite (scan_string_plain x _ Hp).
+  rewrite (scan_string_old_plain x _ Hp).
   change (LF :: y ++ DQ :: rest) with ([LF] ++ y ++ DQ :: rest).
-  rewrite (scan_string_plain [LF] _ eq_refl). rewrite Hy.
+  rewrite (scan_string_old_plain [LF] _ eq_refl). rewrite Hy.
   change (emit Str (x ++ [LF] ++ y)) with (Some (GoStr (x ++ [LF] ++ y))). unfold run.
   assert (go_unquote (x ++ [LF] ++ y) = UqErr) as ->; [|reflexivity].
   clear Hp Hy. induction x as [|c x IH]; [reflexivity|].
   simpl in Hx. apply andb_prop in Hx. destruct Hx as [Hc Hx].
+  apply andb_prop in Hc. destruct Hc as [Hc Hlf]. apply negb_true_iff in Hlf.
   unfold ok_char in Hc. apply andb_prop in Hc. destruct Hc as [Hn Hc].
   apply negb_true_iff in Hn. apply negb_true_iff in Hc.
   repeat (apply orb_false_iff in Hc; destruct Hc as [Hc ?]).
